@@ -31,7 +31,7 @@ class C18(Check):
     assumptions = ["single-threaded datapath (cooperative tasks): buffer operations are not interleaved",
                    "frames used by the harness parse as Ethernet (>= 14 bytes)"]
     rule = ("case = (max_buffers 0..4, miss_send_len, history over {miss arrival, output:CONTROLLER(max_len) arrival, packet_out(buffer id), flow_mod(buffer id), the same with an empty action list (drop), "
-            "stale/bogus/zero ids, set_config}); corpus = all histories of length <= 4 over a 9-op alphabet with pool sizes 0..2; non-trivial = some id is handed out and later used, or the pool fills")
+            "stale/bogus/zero ids, set_config}); corpus = all histories of length <= 4 over a 10-op alphabet with pool sizes 0..2; non-trivial = some id is handed out and later used, or the pool fills")
 
     def setup(self):
         poxenv.boot()
@@ -41,7 +41,7 @@ class C18(Check):
     ALPHA = [{"op": "arrive", "i": 0, "len": 20, "port": 1, "dl": None}, {"op": "arrive", "i": 1, "len": 14, "port": 2, "dl": 3},
              {"op": "use", "id": 1, "via": "po"}, {"op": "use", "id": 2, "via": "fm"}, {"op": "use", "id": 0, "via": "po"},
              {"op": "use", "id": 3, "via": "po"}, {"op": "setmiss", "n": 16}, {"op": "usectl", "id": 1, "dl": 7, "via": "po"},
-             {"op": "drop", "id": 1, "via": "po"}]
+             {"op": "drop", "id": 1, "via": "po"}, {"op": "use", "id": 1, "via": "pod"}]
 
     def corpus(self):
         cases = []
@@ -60,7 +60,7 @@ class C18(Check):
         if r < 0.52:
             return {"op": "drop", "id": rng.choice([0, 1, 1, 2, 2, 3, mx, mx + 1, rng.randint(0, mx + 2)]), "via": rng.choice(["po", "po", "fm"])}
         if r < 0.75:
-            return {"op": "use", "id": rng.choice([0, 1, 1, 2, 2, 3, mx, mx + 1, rng.randint(0, mx + 2), 0xfffffffe]), "via": rng.choice(["po", "po", "fm"])}
+            return {"op": "use", "id": rng.choice([0, 1, 1, 2, 2, 3, mx, mx + 1, rng.randint(0, mx + 2), 0xfffffffe]), "via": rng.choice(["po", "po", "fm", "pod"])}
         if r < 0.9:
             return {"op": "usectl", "id": rng.choice([0, 1, 1, 2, 2, 3, mx, mx + 1, rng.randint(0, mx + 2)]), "dl": rng.choice([0, 5, 128, 65535, rng.randint(0, 300)]),
                     "via": rng.choice(["po", "po", "fm"])}
@@ -116,6 +116,12 @@ class C18(Check):
                 act = [of.ofp_action_output(port=of.OFPP_IN_PORT)] if op["op"] == "use" else []
                 if op["via"] == "po":
                     msg = of.ofp_packet_out(buffer_id=op["id"], in_port=of.OFPP_NONE, actions=act)
+                elif op["via"] == "pod":
+                    # raw bytes: a packet_out naming the buffer AND carrying (other) packet data — OpenFlow 1.0: data is only
+                    # meaningful when buffer_id is -1, so this uses (emits and frees) the buffered packet
+                    b = bytearray(of.ofp_packet_out(in_port=of.OFPP_NONE, actions=act, data=frame(99, 20)).pack())
+                    b[8:12] = (op["id"] & 0xffffffff).to_bytes(4, "big")
+                    msg = bytes(b)
                 else:    # a flow_mod naming the buffer; its match never matches harness frames (in_port 77)
                     msg = of.ofp_flow_mod(match=of.ofp_match(in_port=77), buffer_id=op["id"], actions=act, command=of.OFPFC_ADD)
                 st, rep, em = node.send(msg)
